@@ -78,5 +78,39 @@ def check(tier="quick", seed=0):
                 a = set(k for k in opc.hasarg if k < 256)
                 b = set(k for k in rt["hasarg"] if k < 256)
                 ob("%s/hasarg==CPython" % lb, a == b, key="%s:hasarg" % lb, detail={"only_xdis": sorted(a - b), "only_cpython": sorted(b - a)})
+    # --- the one sanctioned in-place change: remapping.  Exchanging the numbers of two operand-less opcodes must leave the
+    #     threshold and every category set alone (run in a child process: remapping patches the shared table)
+    import subprocess
+    import sys
+    prog = (
+        "import sys, json\n"
+        "from xdis.disasm import get_opcode\n"
+        "out = {}\n"
+        "for v in ((2, 7), (3, 6), (3, 8), (3, 10), (3, 12), (3, 13)):\n"
+        "    base = get_opcode(v, False)\n"
+        "    have = base.HAVE_ARGUMENT\n"
+        "    cats = dict((c, sorted(getattr(base, c))) for c in %r)\n"
+        "    names = [n for n, o in sorted(base.opmap.items(), key=lambda t: t[1]) if o < have and not n.startswith('<') and n not in ('CACHE',)][:2]\n"
+        "    alt = {names[0]: base.opmap[names[1]], names[1]: base.opmap[names[0]]}\n"
+        "    try:\n"
+        "        m = get_opcode(v, False, alt)\n"
+        "        out['%%d.%%d' %% v] = [have, m.HAVE_ARGUMENT, cats == dict((c, sorted(getattr(m, c))) for c in cats), m.opmap[names[0]] == alt[names[0]] and m.opname[alt[names[0]]] == names[0]]\n"
+        "    except Exception as e:\n"
+        "        out['%%d.%%d' %% v] = 'EXC %%s: %%s' %% (type(e).__name__, e)\n"
+        "print(json.dumps(out))\n" % (CATS,))
+    env = dict(os.environ, PYTHONPATH=os.environ.get("XDIS_REPO", "/repo"), PYTHONDONTWRITEBYTECODE="1")
+    q = subprocess.run([sys.executable, "-c", prog], capture_output=True, text=True, env=env, timeout=300)
+    try:
+        rm = json.loads(q.stdout)
+    except Exception:
+        rm = {}
+        ob("remap/ran", False, key="remap", detail={"stderr": q.stderr[-300:]})
+    for ver, r in sorted(rm.items()):
+        if isinstance(r, str):
+            ob("remap/%s/completes" % ver, False, key="remap:" + ver, detail={"error": r})
+            continue
+        ob("remap/%s/HAVE_ARGUMENT-unchanged" % ver, r[0] == r[1], key="remap:%s:HAVE_ARGUMENT" % ver, detail={"before": r[0], "after": r[1]})
+        ob("remap/%s/categories-unchanged" % ver, bool(r[2]), key="remap:%s:categories" % ver)
+        ob("remap/%s/names-follow-numbers" % ver, bool(r[3]), key="remap:%s:names" % ver)
     return {"name": "ground.c09", "kind": "ground", "obligations": obl, "violations": vio, "evaluations": len(obl),
             "assumptions": ["reference = `opcode` module of the installed CPython 2.7.18, 3.6.15, 3.7.16, 3.8.18, 3.9.18, 3.10.13, 3.11.7, 3.12.1, 3.13.0; tables of other versions / PyPy variants: invariants only (no reference in the sandbox)"]}
